@@ -18,7 +18,7 @@ def gen_guided(rng, r, alpha, maxlen, mode):
             ops.append(['r', rng.randrange(n)])
             continue
         if n and x < 0.16 and mode >= 2:
-            ops.append(['p', rng.randrange(n), rng.choice(alpha)])
+            ops.append(['p', rng.randrange(n), rng.choice(alpha)] if rng.random() < 0.6 else ['q', rng.randrange(n)])
             continue
         if x < 0.30:
             ops.append(['f', int(rng.random() < 0.4)])
